@@ -5,6 +5,7 @@ from ..driver import Hang
 from ..run import CaseResult, open_ids
 from ..uidfam import Fam, enc, trace_strategy
 
+from . import c01_conc as CONC
 ID = "C03"
 LEVEL = "exploration"
 RULE = (
@@ -24,6 +25,10 @@ OPEN = open_ids(ID)
 
 
 def strategy(tier, shard, nshards):
+    # every fourth shard: 2-3 sessions with commands in flight plus deliveries (c01_conc.py, judged here only
+    # by "UID FETCH n returns uid n with the content uid n always had")
+    if shard % 4 == 2:
+        return CONC.strategy()
     return trace_strategy(tier, restart_w=2, ns_w=1)
 
 
@@ -93,6 +98,8 @@ async def probe(f: Fam, name: str, k: int, sig: str):
 
 
 def execute(trace) -> CaseResult:
+    if trace.get("kind") == "concurrent":
+        return CONC.execute(trace, ID)
     f = Fam(trace, ID)
 
     async def main():
